@@ -204,7 +204,7 @@ package core
 //@   requires [wf] remoteBlock.Header != nil
 //@   ensures [done]   result0 == types.AddBlockSucc ==> !ghost(addmark) && ghost(headmoved) && chain.latestBlock == remoteBlock.Header
 //@   ensures [failed] result0 != types.AddBlockSucc ==> ghost(headmoved) == old(ghost(headmoved)) && chain.latestBlock == old(chain.latestBlock)
-//@   modifies chain.latestBlock, chain.requestIds, ghost(addmark), ghost(headmoved), ghost(stver), ghost(hashKnown), ghost(hashHeight), ghost(hgtKnown), ghost(hgtPv), ghost(hgtHash)
+//@   modifies chain.latestBlock, chain.requestIds, ghost(addmark), ghost(headmoved), ghost(stver), ghost(hashKnown), ghost(hashHeight), ghost(hgtKnown), ghost(hgtPv), ghost(hgtHash), ghost(lruU64)
 
 //@ func blockChain.removeFromCommonAncestor
 //@   option trusted
